@@ -3,8 +3,15 @@
 usage: reftest.py <diff file> [props...]   -> prints which checks raise an alarm; restores /repo."""
 import json, os, re, subprocess, sys
 
+FULL = "--full" in sys.argv
+if FULL:
+    sys.argv.remove("--full")
+
+
 def sh(cmd, cwd=None):
-    p = subprocess.run(cmd, cwd=cwd, stdout=subprocess.PIPE, stderr=subprocess.STDOUT, text=True)
+    # without --full the widened campaign that follows a degraded tie / broken obligation is skipped (time)
+    env = dict(os.environ) if FULL else dict(os.environ, VERIF_NOEXT="1")
+    p = subprocess.run(cmd, cwd=cwd, stdout=subprocess.PIPE, stderr=subprocess.STDOUT, text=True, env=env)
     return p.returncode, p.stdout
 
 def main():
@@ -21,6 +28,7 @@ def main():
         for p in props:
             rc, out = sh(["/verif/check", p], cwd="/verif")
             viol = [l for l in out.splitlines() if l.startswith("VIOLATION")]
+            degr = [l for l in out.splitlines() if l.startswith("TIE-DEGRADED")]
             detail = ""
             if viol:
                 m = re.search(r"replay=(\S+)", viol[0])
@@ -32,7 +40,7 @@ def main():
                     if os.path.exists(g):
                         os.remove(g)
             res[p] = (rc, viol[0][:120] if viol else "", detail)
-            print(p, "exit", rc, viol[0][:100] if viol else "", detail[:300], flush=True)
+            print(p, "exit", rc, viol[0][:100] if viol else "", detail[:300], ("degraded: %d items" % len(degr)) if degr else "", flush=True)
     finally:
         sh(["git", "-C", "/repo", "checkout", "--", "."])
         sh(["git", "-C", "/repo", "clean", "-fdq", "src", "tests"])
